@@ -17,12 +17,14 @@ DAStep(k, acc, tin, g) ==
       H2  == FAdd(k.H, FSub(g.target, acc))
       ls  == FSub(k.mu, FDiv(FMul(H2, FSqrt(t)), FMul(g.gamma, FAdd(g.t0, t))))
       eta == FPow(t, FNeg(g.kappa))
-  IN [eps  |-> FExp(ls),
+  \* (the step size is held in single precision: far from the averaged value the exponential leaves its range and
+  \* the iterate is +Infinity or 0 - the recurrence goes on with the logarithms, which stay finite)
+  IN [eps  |-> FToF32(FExp(ls)),
       H    |-> H2,
       lavg |-> FAdd(FMul(FSub("1.0", eta), k.lavg), FMul(eta, ls)),
       mu   |-> k.mu]
 
-DAFinalize(k) == [k EXCEPT !.eps = FExp(k.lavg)]
+DAFinalize(k) == [k EXCEPT !.eps = FToF32(FExp(k.lavg))]
 
 \* field-wise closeness of two tuning states (float32 code vs double spec)
 Same(a, b, rtol, atol) ==
